@@ -139,7 +139,7 @@ impl Monitor for C15 {
             let mut cfg = GenCfg::full(Ev::I64, &leaf);
             cfg.bin_ops = vec![Op::Add, Op::Sub, Op::Mul, Op::Mod, Op::Pow, Op::Div];
             cfg.funcs = vec![Func::Abs, Func::Sgn, Func::Min, Func::Max, Func::Mod];
-            cfg.sup_digits = vec!["2", "3", "0", "1", "10", "62", "63"];
+            cfg.sup_digits = vec!["2", "3", "0", "1", "10", "62", "63", "4", "5", "6", "7", "8", "9"];
             let n = ctx.tier.pick(120_000u64, 2_500_000);
             for i in 0..n {
                 if ctx.mine() {
